@@ -24,7 +24,7 @@ MC_NOTE = COMMON_NOTE + "States are keyed by EVERY private field of the object, 
 
 add("C04", "model_checking",
     "Explicit-state breadth-first search over ALL operation histories (Next/Peek/Skip/ReadBinary with boundary sizes, negative counts, Release) of the REAL DefaultReader and BytesReader, for every combination of stream length, chunk policy, end-of-data style, zero-read policy and terminal error, with every transition compared against a plain cursor over the source bytes; on top, every per-Read deviation (1-byte, empty, half, all-with-error) up to a deviation bound on all short histories. This is the right level because the property quantifies over histories x fragmentations and the defects live in cursor arithmetic reachable only from non-initial states.",
-    MC_NOTE + "Environment: 9 kinds of terminal error values (plain, wrapped, wrapping an exception, typed, timeout, an aggregate of a non-comparable type); after its terminal error a source either repeats it or answers garbage and another error; sources may also expose Len/ReadByte/WriteTo, answer up to 30 consecutive empty reads between data and 1..300 before their error (io.ErrNoProgress is accepted only while the source has not produced its error), or deliver their first reads one byte at a time; Release is also called with a non-nil error; requests up to 68 MiB.",
+    MC_NOTE + "Environment: 10 kinds of terminal error values (plain, wrapped, wrapping an exception, typed, timeout, an aggregate of a non-comparable type, an error value made by the library itself); after its terminal error a source either repeats it or answers garbage and another error; sources may also expose Len/ReadByte/WriteTo, answer up to 30 consecutive empty reads between data and 1..300 before their error (io.ErrNoProgress is accepted only while the source has not produced its error), or deliver their first reads one byte at a time; Release is also called with a non-nil error; requests up to 68 MiB.",
     "explicit-state BFS over operation histories of the real object + deviation-bounded exploration of environment answers, reference-model comparison on every transition", "E2+E1", "5/C04")
 add("C05", "model_checking",
     "Explicit-state breadth-first search over ALL histories of Malloc (filled at once or lazily just before Flush, forward/reverse), WriteBinary, Malloc(-1), Flush on the REAL DefaultWriter and BytesWriter, sink failing at write k for every k, bytes writers over nil/empty/partly filled/full initial slices; every transition compared with the region-list model (sink bytes == concatenation once and in order, WrittenLen, sticky error, target slice).",
